@@ -204,7 +204,14 @@ func runTx(prop string, args []string) {
 		emit(base.export(ds))
 		emit(J{"kind": "init", "dataset": ds, "obs": base.obs()})
 		n := base.nact
-		for st := 0; st < states; st++ {
+		dsStates := states
+		if strings.HasPrefix(ds, "GEN") {
+			dsStates = states / 6 // generated data sets: fewer start sets each, many data sets
+			if dsStates < 3 {
+				dsStates = 3
+			}
+		}
+		for st := 0; st < dsStates; st++ {
 			bits := txBits(p, n, []float64{0.1, 0.5, 0.9}[st%3])
 			for i := 0; i < n; i++ {
 				if tier != "thorough" && p.intn(3) != 0 {
@@ -387,7 +394,111 @@ func runTx(prop string, args []string) {
 			}
 		}
 		stats["offgrid"] += base.offGrid
+		if tier == "thorough" && !strings.HasPrefix(ds, "GEN") {
+			txExhaustive(prop, ds, stats, &fails)
+		}
 	}
 	stats["oracle_failures"] = fails
 	emit(J{"kind": "stat", "stats": stats})
 }
+
+// txExhaustive: thorough tier, implementation-side only -- EVERY action set of the data set (Gray-code walk on one
+// long-lived instance) x EVERY action: propose / revert and propose / accept / undo, with the C02 clauses checked
+// on grid integers; for C10 additionally x each of the six limitable variables with the limit placed between the
+// current and the prospective total (verdict and quoted value); for C11 the aggregates at every state.
+func txExhaustive(prop, ds string, stats map[string]int, fails *int) {
+	c := catchOpen(txPath(ds), nil)
+	n := c.nact
+	limit := 1 << uint(n)
+	if limit > 1<<15 {
+		limit = 1 << 15
+	}
+	type setMax interface{ SetMaximum(float64) }
+	report := func(what string, k int, i int, extra J) {
+		*fails++
+		if *fails <= 5 {
+			line := J{"kind": "oracle", "what": what + " (exhaustive sweep)", "dataset": ds, "bits": c03BitsOf(c), "gray_state": k, "i": i}
+			for kk, v := range extra {
+				line[kk] = v
+			}
+			emit(line)
+		}
+	}
+	for k := 0; k < limit; k++ {
+		if k > 0 {
+			bit := 0
+			for (k>>uint(bit))&1 == 0 {
+				bit++
+			}
+			c.apply(catchOp{Op: "TA", I: bit})
+		}
+		if prop == "C11" {
+			txAggregateOracle(c, ds, c03BitsOf(c), "exhaustive", fails)
+			stats["exhaustive_states"]++
+			continue
+		}
+		before := c.obs()
+		bt, bv := before["totals"].([]int64), before["vals"].([][]int64)
+		for i := 0; i < n; i++ {
+			pu := c.m.ManagementActions()[i].PlanningUnit()
+			// propose, look, revert
+			c.toggleObserved(i)
+			during := c.obs()
+			changes := make([]int64, 6)
+			for v, name := range catchVarNames {
+				changes[v] = c.grid(c.m.DecisionVariableChange(name), catchVarScale[v])
+			}
+			if prop == "C10" {
+				for v, name := range catchVarNames {
+					prospective := bt[v] + changes[v]
+					for _, lim := range []float64{(float64(prospective) + 0.5) / catchVarScale[v], (float64(prospective) - 0.5) / catchVarScale[v]} {
+						c.m.ContainedDecisionVariables.Variable(name).(setMax).SetMaximum(lim)
+						valid, verr := c.m.ChangeIsValid()
+						within := float64(prospective)/catchVarScale[v] <= lim
+						if valid != within {
+							report("validity verdict differs from (prospective value <= limit)", k, i, J{"variable": name, "limit": lim, "prospective": prospective, "valid": valid})
+						}
+						if !valid {
+							q, ok := txParseQuote(verr.Error()[strings.Index(verr.Error(), name+" "):], catchVarScale[v])
+							if !ok || q != prospective {
+								report("value quoted in the rejection differs from the value the variable would take", k, i, J{"variable": name, "quote": q, "prospective": prospective})
+							}
+						}
+						stats["exhaustive_verdicts"]++
+					}
+					c.m.ContainedDecisionVariables.Variable(name).(setMax).SetMaximum(math.MaxFloat64)
+				}
+			}
+			c.m.RevertChange()
+			after := c.obs()
+			if !catchSameObs(before["totals"], during["totals"]) || !catchSameObs(before["vals"], during["vals"]) {
+				report("reported value changed while the change was only proposed", k, i, nil)
+			}
+			if !catchSameObs(before, after) {
+				report("revert did not restore every observable", k, i, J{"before": before, "after": after})
+			}
+			// propose, accept, look, undo
+			c.toggleObserved(i)
+			c.m.AcceptChange()
+			acc := c.obs()
+			at, av := acc["totals"].([]int64), acc["vals"].([][]int64)
+			for v := range catchVarNames {
+				if at[v] != bt[v]+changes[v] {
+					report("accept did not move "+catchVarNames[v]+" by the reported change", k, i, nil)
+				}
+				for j, p2 := range c.pus {
+					if p2 != pu && av[v][j] != bv[v][j] {
+						report("accepting a change altered a per-unit value outside the action's own planning unit", k, i, nil)
+					}
+				}
+			}
+			c.m.RevertChange()
+			if !catchSameObs(before, c.obs()) {
+				report("undoing an accepted change did not restore every observable", k, i, nil)
+			}
+			stats["exhaustive_transactions"] += 2
+		}
+	}
+}
+
+func c03BitsOf(c *catchInst) []int { return c03Bits(c) }
